@@ -237,5 +237,23 @@ template <class T> struct SVectorBase
 #include "SV_scale.inc"
    }
 #endif
+#ifdef WANT_SV_NORMS
+   void sort()
+   {
+#include "SV_sort.inc"
+   }
+   R maxAbs() const
+   {
+#include "SV_maxAbs.inc"
+   }
+   R minAbs() const
+   {
+#include "SV_minAbs.inc"
+   }
+   R length2() const
+   {
+#include "SV_length2.inc"
+   }
+#endif
 };
 #endif
